@@ -392,6 +392,12 @@ impl Story {
         // that was diverted to rather than called as a function)
         let mut current_content_obj = pointer.resolve();
 
+        // A position that holds no content (an index past the end of its container, from a
+        // hand-edited save or one made with another version of the story): step past it
+        if current_content_obj.is_none() {
+            should_add_to_stream = false;
+        }
+
         let is_logic_or_flow_control = self.perform_logic_and_flow_control(&current_content_obj)?;
 
         // Has flow been forced to end by flow control above?
